@@ -363,6 +363,18 @@ def mut_line(evs, pred, **kv):
     return evs
 
 
+def mut_part_header_line(evs):
+    # a header line of a MIME part (after the first delimiter line) that is too long although it could be folded
+    j = _find(evs, lambda e: e['ev'] == 'line' and e['dd'])
+    if j < 0:
+        return None
+    i = _find(evs, lambda e: e['ev'] == 'line' and e['name'] == 'content-transfer-encoding', j)
+    if i < 0:
+        return None
+    evs[i].update(len=79, inner=True)
+    return evs
+
+
 def mut_hdr(evs):
     i = _find(evs, lambda e: e['ev'] == 'hdr')
     if i < 0:
@@ -465,7 +477,7 @@ SELFTESTS = {
     'C18': [('bare LF', lambda evs: mut_line(evs, lambda e: e['eol'] == 'crlf', eol='lf'), 'C18_CRLF'),
             ('bare CR', lambda evs: mut_line(evs, lambda e: e['len'] > 0, barecr=True), 'C18_NoBareCR'),
             ('long header line with blanks', lambda evs: mut_line(evs, lambda e: e['name'] == 'subject', len=79, inner=True), 'C18_HeaderLineLength'),
-            ('long part header line with blanks', lambda evs: mut_line(evs, lambda e: e['name'] == 'content-transfer-encoding' and e['n'] > 15, len=79, inner=True), 'C18_PartHeaderLineLength'),
+            ('long part header line with blanks', mut_part_header_line, 'C18_PartHeaderLineLength'),
             ('encoded body line of 77', lambda evs: mut_line(evs, lambda e: e['b64'] and e['len'] == 76 and e['name'] == '', len=77), 'C18_EncodedLineLength'),
             ('folded value differs', mut_hdr, 'C18_UnfoldsToValue')],
     'C02': [('duplicated singleton field', mut_dup_field, 'C02_TopFields'),
